@@ -274,14 +274,20 @@ def validate_vector_data_for_inference(data: list[Any]) -> tuple[tuple[int, ...]
         first_item = np.array(first_item)
     if not isinstance(first_item, np.ndarray):
         raise TypeError("Data elements must be numpy arrays or convertible.")
+    if first_item.ndim != 2:
+        raise ValueError("Data elements must be 2D arrays with shape (rows, num_fields).")
 
     inferred_num_fields = first_item.shape[1]
 
     for item in data:
         if isinstance(item, list):
             item = np.array(item)
-        if not isinstance(item, np.ndarray) or item.shape[1] != inferred_num_fields:
-            raise ValueError("All data arrays must have same number of fields.")
+        if (
+            not isinstance(item, np.ndarray)
+            or item.ndim != 2
+            or item.shape[1] != inferred_num_fields
+        ):
+            raise ValueError("All data arrays must be 2D with the same number of fields.")
 
     shape = (len(data),)
     return shape, inferred_num_fields
@@ -334,7 +340,9 @@ def validate_vector_data(data: list[Any], shape: tuple[int, ...], num_fields: in
                 f"Data element at index {idx} must be a numpy array or convertible to one"
             )
 
-        # Check if the number of fields matches
+        # Check that the item is two-dimensional and the number of fields matches
+        if item.ndim != 2:
+            raise ValueError(f"Data element at index {idx} must be a 2D array, got {item.ndim}D")
         if item.shape[1] != num_fields:
             raise ValueError(
                 f"Data element at index {idx} must have {num_fields} fields, got {item.shape[1]}"
